@@ -89,6 +89,10 @@ def keStep (st : KeSt) (ops : List String) (_impl : String) : KeSt × String :=
     match st.term (natArg src) with
     | .initHello _ h => showMsg st (some (.initHello (natArg adv) h))
     | _ => (st, "bad-op")
+  | ["x-lie", a, k] =>
+    match st.term (natArg a) with
+    | .initHello e h => showMsg st (some (.initHello e { h with key := natArg k }))
+    | _ => (st, "bad-op")
   | ["x-splice", a, b] =>
     match st.term (natArg a), st.term (natArg b) with
     | .initHello e _, .initHello _ h => showMsg st (some (.initHello e h))
